@@ -1,6 +1,7 @@
 package main
 
 import (
+	"fmt"
 	"go/ast"
 	"go/token"
 	"go/types"
@@ -430,13 +431,84 @@ func checkC19(c *Ctx, r *Report) {
 		for _, n := range nexts {
 			r5.Check(isResultOfCall(n.(*ssa.Call).Call.Args[0], 0, pidK) != nil, shK+": next receives hs.PeerID()", instrPos(n), 1, "", "", "")
 		}
-		// hostname validated: the value stored in hs.Hostname is the one compared / validated
+		// hostname validated: the variable stored in hs.Hostname (here or in a local constructor closure) is the one
+		// compared / validated. The variable is an SSA value, or a cell assigned once when a closure captures it.
+		resolveVar := func(v ssa.Value, fn *ssa.Function) ssa.Value {
+			v = strip(v)
+			ld, ok := v.(*ssa.UnOp)
+			if !ok || ld.Op != token.MUL {
+				return v
+			}
+			switch x := ld.X.(type) {
+			case *ssa.Alloc:
+				return x
+			case *ssa.FreeVar:
+				for g := fn; g != nil && c.Parent(g) != nil; g = c.Parent(g) {
+					var cell ssa.Value
+					allInstrs(c.Parent(g), func(in ssa.Instruction) {
+						if mc, ok := in.(*ssa.MakeClosure); ok && mc.Fn == ssa.Value(g) {
+							for i, fv := range g.FreeVars {
+								if fv == x && i < len(mc.Bindings) {
+									cell = mc.Bindings[i]
+								}
+							}
+						}
+					})
+					if cell != nil {
+						return cell
+					}
+				}
+			}
+			return v
+		}
 		var host ssa.Value
-		for _, st := range findInstrs(sh, fieldWritePred(srvT+".Hostname")) {
-			if host == nil {
-				host = strip(st.(*ssa.Store).Val)
-			} else if strip(st.(*ssa.Store).Val) != host {
-				r5.Fail(shK+": hostname handed to the handshake", instrPos(st), "different hostname values are handed to the handshake", "")
+		var walkFns func(fn *ssa.Function)
+		walkFns = func(fn *ssa.Function) {
+			for _, st := range findInstrs(fn, fieldWritePred(srvT+".Hostname")) {
+				hv := resolveVar(st.(*ssa.Store).Val, fn)
+				if host == nil {
+					host = hv
+				} else if hv != host {
+					r5.Fail(shK+": hostname handed to the handshake", instrPos(st), "different hostname values are handed to the handshake", "")
+				}
+			}
+			for _, a := range fn.AnonFuncs {
+				walkFns(a)
+			}
+		}
+		walkFns(sh)
+		isHost := func(v ssa.Value) bool { return host != nil && strip(v) == host }
+		if cell, isCell := host.(*ssa.Alloc); isCell {
+			nSt := 0
+			for _, ref := range *cell.Referrers() {
+				if st, ok := ref.(*ssa.Store); ok && st.Addr == ssa.Value(cell) {
+					nSt++
+				}
+			}
+			var inClosures func(fn *ssa.Function)
+			inClosures = func(fn *ssa.Function) {
+				for _, a := range fn.AnonFuncs {
+					allInstrs(a, func(in ssa.Instruction) {
+						if st, ok := in.(*ssa.Store); ok && resolveVarAddr(c, st.Addr, a) == ssa.Value(cell) {
+							nSt++
+						}
+					})
+					inClosures(a)
+				}
+			}
+			inClosures(sh)
+			r5.Check(nSt == 1, shK+": the hostname variable is assigned once", cell.Pos(), nSt, "", "the hostname handed to the handshake can differ from the one that was validated", "")
+			var stored ssa.Value
+			for _, ref := range *cell.Referrers() {
+				if st, ok := ref.(*ssa.Store); ok && st.Addr == ssa.Value(cell) {
+					stored = strip(st.Val)
+				}
+			}
+			isHost = func(v ssa.Value) bool {
+				if ld, ok := v.(*ssa.UnOp); ok && ld.Op == token.MUL && ld.X == ssa.Value(cell) {
+					return true
+				}
+				return nSt == 1 && stored != nil && strip(v) == stored
 			}
 		}
 		if host == nil {
@@ -444,11 +516,11 @@ func checkC19(c *Ctx, r *Report) {
 		} else {
 			validFn := func(v ssa.Value) bool {
 				call, ok := v.(*ssa.Call)
-				return ok && isDynCallOfField(call, authP+".ServerPeerIDAuth.ValidHostnameFn") && strip(call.Call.Args[0]) == host
+				return ok && isDynCallOfField(call, authP+".ServerPeerIDAuth.ValidHostnameFn") && isHost(call.Call.Args[0])
 			}
 			sni := func(v ssa.Value) bool { f, _ := loadOfField(v); return f != nil && f.Name() == "ServerName" }
 			r5.guard(sh, "next(peer, w, r)", nexts, "hostname == r.TLS.ServerName || ValidHostnameFn(hostname)",
-				anyEdge(edgeBool(validFn, true), eqEdge(isValue(host), sni, true)), nil)
+				anyEdge(edgeBool(validFn, true), eqEdge(isHost, sni, true)), nil)
 			// in NoTLS mode the validator must exist and accept
 			var noTLS ssa.Value
 			allInstrs(sh, func(in ssa.Instruction) {
@@ -458,7 +530,7 @@ func checkC19(c *Ctx, r *Report) {
 			})
 			if noTLS != nil {
 				r5.guard(sh, "next(peer, w, r) [NoTLS]", nexts, "ValidHostnameFn(hostname)==true", edgeBool(validFn, true), map[ssa.Value]bool{noTLS: true})
-				r5.guard(sh, "next(peer, w, r) [TLS]", nexts, "hostname == r.TLS.ServerName", eqEdge(isValue(host), sni, true), map[ssa.Value]bool{noTLS: false})
+				r5.guard(sh, "next(peer, w, r) [TLS]", nexts, "hostname == r.TLS.ServerName", eqEdge(isHost, sni, true), map[ssa.Value]bool{noTLS: false})
 			}
 		}
 	}
@@ -544,5 +616,130 @@ func checkC19(c *Ctx, r *Report) {
 				r6.Check(isLoadOfField(keyF)(strip2(call.Common().Args[0])), shK+"$init: newHmacPool(a.HmacKey)", instrPos(call.(ssa.Instruction)), 1, "", "", "")
 			}
 		}
+	}
+
+	// ---- R7 ---------------------------------------------------------------
+	// freshness: each side's challenge is the encoding of bytes just read from the random source, untouched in between
+	r7 := r.Rule("C19-R7", "E7b/E1", 8, "challenges are fresh: encoded from a buffer filled by io.ReadFull(randReader) on that path, with no write to the buffer in between; randReader is crypto/rand.Reader and nothing in the module reassigns it")
+	randG := hsP + ".randReader"
+	r7.onlyIn("write "+randG, func(in ssa.Instruction) bool {
+		st, ok := in.(*ssa.Store)
+		if !ok {
+			return false
+		}
+		g, ok := st.Addr.(*ssa.Global)
+		return ok && globalKey(g) == randG
+	}, c.Fns, hsP+".init")
+	if initF := c.Fn(hsP + ".init"); initF != nil {
+		n := 0
+		allInstrs(initF, func(in ssa.Instruction) {
+			st, ok := in.(*ssa.Store)
+			if !ok {
+				return
+			}
+			if g, ok := st.Addr.(*ssa.Global); ok && globalKey(g) == randG {
+				n++
+				src, isLd := strip(st.Val).(*ssa.UnOp)
+				okSrc := false
+				if isLd {
+					if sg, isG := src.X.(*ssa.Global); isG && globalKey(sg) == "crypto/rand.Reader" {
+						okSrc = true
+					}
+				}
+				r7.Check(okSrc, "randReader = crypto/rand.Reader", instrPos(in), 1, "", "challenges are drawn from a source other than the system's cryptographic generator", describeVal(st.Val))
+			}
+		})
+		r7.Check(n == 1, "randReader initialised once", initF.Pos(), n, "", "", "")
+	}
+	for _, site := range []struct{ fn, what string }{
+		{"(*" + cliT + ").addChallengeServerParam", "challenge-server"},
+		{"(*" + srvT + ").addChallengeClientParam", "challenge-client"},
+	} {
+		f := r7.need(site.fn)
+		if f == nil {
+			continue
+		}
+		fills := callsIn(f, "io.ReadFull")
+		encs := callsIn(f, "(*encoding/base64.Encoding).AppendEncode")
+		if len(fills) != 1 || len(encs) != 1 {
+			r7.Fail(site.fn+": one fill, one encode", f.Pos(), "expected one io.ReadFull and one AppendEncode", fmt.Sprint(len(fills), len(encs)))
+			continue
+		}
+		fill, enc := fills[0], encs[0]
+		buf := fill.Common().Args[1]
+		rd, isLd := strip(fill.Common().Args[0]).(*ssa.UnOp)
+		okRd := false
+		if isLd {
+			if g, isG := rd.X.(*ssa.Global); isG && globalKey(g) == randG {
+				okRd = true
+			}
+		}
+		r7.Check(okRd, site.fn+": the buffer is filled from randReader", instrPos(fill.(ssa.Instruction)), 1, "", "", "")
+		src := enc.Common().Args[len(enc.Common().Args)-1]
+		r7.Check(sameSlice(src, buf), site.fn+": the bytes encoded are the bytes read", instrPos(enc.(ssa.Instruction)), 1, "", "the "+site.what+" value is not the random bytes", "")
+		r7.guard(f, "encode", []ssa.Instruction{enc.(ssa.Instruction)}, "io.ReadFull err==nil", edgeNil(isCallResult(1, "io.ReadFull"), true), nil)
+		// between the fill and the encode nothing writes the buffer
+		base := sliceBase(buf)
+		overwrites := func(in ssa.Instruction) bool {
+			if in == fill.(ssa.Instruction) || in == enc.(ssa.Instruction) {
+				return false
+			}
+			switch x := in.(type) {
+			case *ssa.Call:
+				switch calleeKey(x) {
+				case "builtin.clear", "builtin.copy", "io.ReadFull", "(io.Reader).Read":
+					a := x.Call.Args[0]
+					if calleeKey(x) == "io.ReadFull" {
+						a = x.Call.Args[1]
+					}
+					return base != nil && sameExpr(sliceBase(a), base, 0) || sameSlice(a, buf)
+				}
+			case *ssa.Store:
+				if ia, ok := x.Addr.(*ssa.IndexAddr); ok {
+					return base != nil && (sameExpr(ia.X, base, 0) || sameExpr(sliceBase(ia.X), base, 0))
+				}
+			}
+			return false
+		}
+		w, n := (&Cut{Fn: f, From: []ssa.Instruction{fill.(ssa.Instruction)}, Target: overwrites, Sep: isInstr(enc.(ssa.Instruction))}).Run(c)
+		r7.Check(w == "", site.fn+": the random bytes are not overwritten before they are encoded", instrPos(enc.(ssa.Instruction)), n+1, "", "the "+site.what+" sent is not the fresh random value (a constant or stale challenge can be replayed)", w)
+		// the challenge kept for verification / sent is the encoding
+		isEnc := func(v ssa.Value) bool { return v == enc.Value() }
+		nUse := 0
+		allInstrs(f, func(in ssa.Instruction) {
+			switch x := in.(type) {
+			case *ssa.Store:
+				fl, _ := fieldAddrOf(x.Addr)
+				if fl != nil && (fl.Name() == "challengeServer" || fl.Name() == "ChallengeClient") {
+					nUse++
+					r7.Check(derivesFrom(x.Val, isEnc), site.fn+": the challenge remembered is the encoded random value", instrPos(in), 1, "", "", "")
+				}
+			case *ssa.Call:
+				if calleeKey(x) == "(*"+hsP+".headerBuilder).writeParam" {
+					if s, ok := constString(x.Call.Args[1]); ok && s == site.what {
+						nUse++
+						arg := x.Call.Args[2]
+						okArg := derivesFrom(arg, isEnc)
+						if !okArg {
+							// read back from the field it was just remembered in (the only store to that field here)
+							if ld, isLd := strip(arg).(*ssa.UnOp); isLd && ld.Op == token.MUL {
+								nSt, nEnc := 0, 0
+								allInstrs(f, func(in2 ssa.Instruction) {
+									if st, ok := in2.(*ssa.Store); ok && sameExprAddr(st.Addr, ld.X) {
+										nSt++
+										if derivesFrom(st.Val, isEnc) && st.Block().Dominates(ld.Block()) {
+											nEnc++
+										}
+									}
+								})
+								okArg = nSt == 1 && nEnc == 1
+							}
+						}
+						r7.Check(okArg, site.fn+": the challenge sent is the encoded random value", instrPos(in), 1, "", "", "")
+					}
+				}
+			}
+		})
+		r7.Check(nUse >= 2, site.fn+": challenge remembered and sent", f.Pos(), nUse, "", "", "")
 	}
 }
